@@ -37,6 +37,7 @@ class FakeIsotope:
 
 
 import decimal
+import numpy as np
 _DC = decimal.Context(prec=80)
 
 
@@ -422,6 +423,40 @@ def _hp_rows_case(case, tier, seed):
                                     ill['bad_acc'].append((abs(got - w) / abs(w), tag, vals, got, w))
                                 if not neg_ok:
                                     ill['bad_neg'].append((got, tag, vals, got, w))
+    # number types: the same environment given with Python ints, numpy integers or numpy floats gives the same activities;
+    # fast rows are omitted for every way of writing a zero fast ratio
+    for el in pt.elements:
+        for iso in el:
+            for ai in getattr(iso, 'neutron_activation', []):
+                tag = '%s|%s->%s' % (ai.reaction, ai.isotope, ai.daughter)
+                fake = FakeIsotope(iso.isotope, [ai])
+                for fl in (10 ** 16, 10 ** 13):
+                    ref = activation.activity(fake, 1.0, activation.ActivationEnvironment(fluence=float(fl), Cd_ratio=0., fast_ratio=50.), 10.0, [0, 5])
+                    for kind, val in (('int', int(fl)), ('int64', np.int64(fl)), ('float64', np.float64(fl))):
+                        got = activation.activity(fake, 1.0, activation.ActivationEnvironment(fluence=val, Cd_ratio=0., fast_ratio=50.), 10.0, [0, 5])
+                        res['claims'] += 1
+                        tol = 1e-5 if kind == 'float32' else 1e-9
+                        ok = list(got) == list(ref) and all(abs(x - y) <= tol * abs(y) or (abs(y) < 1e-300 and abs(x) < 1e-300) for k in ref for x, y in zip(got[k], ref[k]))
+                        if ok:
+                            res['discharged'] += 1
+                        else:
+                            viol.append(dict(case=case.name, claim='fluence_number_type[%s|%s]' % (kind, tag), values=dict(fluence=repr(val)),
+                                             observed=[repr(list(got.values()))[:100], repr(list(ref.values()))[:100]], how='concrete'))
+                if ai.fast:
+                    for zero in (0, 0.0, np.float64(0.0), np.int64(0)):
+                        for fl in (1e13, np.float64(1e13), np.int64(10 ** 13)):
+                            res['claims'] += 1
+                            try:
+                                got = activation.activity(fake, 1.0, activation.ActivationEnvironment(fluence=fl, Cd_ratio=0., fast_ratio=zero), 10.0, [0])
+                                ok = got == {}
+                                obs = repr(got)[:100]
+                            except Exception as e:   # noqa: BLE001
+                                ok, obs = False, '%s: %s' % (type(e).__name__, e)
+                            if ok:
+                                res['discharged'] += 1
+                            else:
+                                viol.append(dict(case=case.name, claim='fast_row_omitted_at_zero_fast_ratio[%s]' % tag, values=dict(fast_ratio=repr(zero), fluence=repr(fl)),
+                                                 observed=[obs, '{}'], how='concrete'))
     # the two-step capture branch at small rate*time products: one aggregated claim each (see known_findings.json)
     res['claims'] += 2
     for key, claim in (('bad_acc', 'two_step_capture_accuracy_at_small_rates'), ('bad_neg', 'two_step_capture_nonneg_at_small_rates')):
